@@ -1502,7 +1502,35 @@ def struct_tag_first_rule(syn, prop, rule="C01.R4"):
 
 # ------------------------------------------------------------------ shape tables (C01/C02/C14/C11)
 
-def _enum_override_order(syn, prop, r):
+def _enum_override_order_mir(crate, prop, r):
+    """MIR: wherever enum_def produces the `never` of an enum without variants (a call of empty_enum, or a template with the
+    literal "never"), the container's `type` and `as` have been tested and found absent"""
+    from vlib import mirlib as M2, quotelib as Q2
+    from rules.field_rules import _edge_constraints
+    b = crate.ibody("types::r#enum::r#enum_def") or crate.ibody("types::r#enum::enum_def")
+    if b is None:
+        return None
+    sites = [blk for blk, t in b.calls() if not b.is_cleanup(blk) and M2.fn_matches(t, r"r#enum::empty_enum$") and not t.get("inlined")]
+    sites += [t.block for t in Q2.templates(b) if re.search(r'^"never" \. to_owned', t.text())]
+    if not sites:
+        return None
+    ok = True
+    for blk in sites:
+        cons = _edge_constraints(b, blk)
+        t_as = [v for s2, v in cons if re.search(r"EnumAttr\.type_as$", s2)]
+        t_ov = [v for s2, v in cons if re.search(r"EnumAttr\.type_override$", s2)]
+        ok = ok and 0 in t_as and 0 in t_ov
+    return ok
+
+
+def _enum_override_order(syn, prop, r, crate=None):
+    if crate is not None:
+        v = _enum_override_order_mir(crate, prop, r)
+        if v is not None:
+            r.inst(shape="empty enum", override_checked_before_never=v, decided_on="MIR: `never` is built only where EnumAttr.type_as and EnumAttr.type_override were found to be None")
+            if not v:
+                r.fail(prop, "enum-override-after-empty enum_def", "enum_def returns `never` for an enum without variants before it looks at the container-level `type`/`as`: `#[ts(as = \"Target\")] enum Marker {}` is declared `never` instead of Target's type", None, None)
+            return
     # an enum without variants is `never` only if nothing replaces its definition: the container-level `type`/`as` come first
     ef = syn.fn("types::enum::r#enum_def", "types/enum.rs") or syn.fn("types::enum::enum_def", "types/enum.rs")
     pos = {}
@@ -1518,14 +1546,14 @@ def _enum_override_order(syn, prop, r):
                ef["file"] if ef else None, pos.get("empty", (None,))[0])
 
 
-def enum_override_order_rule(syn, prop, rule):
+def enum_override_order_rule(syn, prop, rule, crate=None):
     r = Result(rule, "enum_def looks at the container-level `#[ts(type = ..)]` / `#[ts(as = ..)]` before it declares an enum without variants as `never`: `as` changes the presentation of every enum, the empty one included")
-    _enum_override_order(syn, prop, r)
+    _enum_override_order(syn, prop, r, crate)
     r.floor = 1
     return r
 
 
-def struct_dispatch_rule(syn, prop, rule="C01.R6"):
+def struct_dispatch_rule(syn, prop, rule="C01.R6", crate=None):
     r = Result(rule, "type_def dispatches on the shape of the fields like serde's data model: named (non-empty or tagged) → object; empty named without tag → empty object; 0 unnamed → empty array; 1 unnamed → the inner type (newtype); n unnamed → tuple; unit → null; and each empty shape uses the narrowest TypeScript type")
     fn = syn.fn("types::type_def", "types/mod.rs")
     if fn is None:
@@ -1551,12 +1579,19 @@ def struct_dispatch_rule(syn, prop, rule="C01.R6"):
     want = {("Named", "0", "attr.tag.is_none()"): "unit::empty_object", ("Named", "_", None): "named::named",
             ("Unnamed", "0", None): "unit::empty_array", ("Unnamed", "1", None): "newtype::newtype", ("Unnamed", "_", None): "tuple::tuple",
             ("Unit", None, None): "unit::null"}
-    for k, v in want.items():
+    mir_dispatch = None
+    if crate is not None:
+        # the dispatch itself is decided on the MIR (tests that dominate each formatter call), not on the spelling of the match
+        from rules.field_rules import dispatch_rule
+        mir_dispatch = dispatch_rule(crate, prop, rule)
+        r.instances += mir_dispatch.instances
+        r.findings += mir_dispatch.findings
+    for k, v in ({} if mir_dispatch is not None else want).items():
         ok = got.get(k) == v
         r.inst(shape=k[0], count=k[1], guard=k[2], dispatches_to=got.get(k), expected=v, ok=ok)
         if not ok:
             r.fail(prop, "struct-dispatch %s/%s" % (k[0], k[1]), "fields shape %s (count %s%s) is formatted by %s, expected %s" % (k[0], k[1], " if " + k[2] if k[2] else "", got.get(k), v), fn["file"], fn["line"])
-    extra = set(got) - set(want)
+    extra = set(got) - set(want) if mir_dispatch is None else set()
     for k in sorted(extra, key=str):
         r.fail(prop, "struct-dispatch-extra %s/%s" % (k[0], k[1]), "unexpected dispatch arm %s -> %s" % (k, got[k]), fn["file"], fn["line"])
     # narrowest types for the empty shapes
@@ -1569,7 +1604,9 @@ def struct_dispatch_rule(syn, prop, rule="C01.R6"):
                 sl = S.string_lits(e["tokens"])
                 found = S.unquote(sl[0]) if sl else None
         r.inst(shape=name, literal=found, expected=lit, ok=found == lit)
-        if found != lit:
+        if found is None:
+            r.fail(prop, "anchor-missing empty-shape-literal %s" % name, "the literal unit::%s declares could not be read" % name, f["file"] if f else None, f["line"] if f else None)
+        elif found != lit:
             r.fail(prop, "empty-shape-literal %s" % name, "unit::%s declares %r, expected %r" % (name, found, lit), f["file"] if f else None, f["line"] if f else None)
     ee = syn.fn("types::enum::empty_enum", "types/enum.rs")
     found = None
@@ -1578,7 +1615,9 @@ def struct_dispatch_rule(syn, prop, rule="C01.R6"):
             sl = S.string_lits(e["tokens"])
             found = S.unquote(sl[0]) if sl else None
     r.inst(shape="empty enum", literal=found, expected="never", ok=found == "never")
-    if found != "never":
+    if found is None:
+        r.fail(prop, "anchor-missing empty-shape-literal empty_enum", "the literal an enum without variants declares could not be read", ee["file"] if ee else None, ee["line"] if ee else None)
+    elif found != "never":
         r.fail(prop, "empty-shape-literal empty_enum", "an enum without variants declares %r, expected `never`" % found, ee["file"] if ee else None, ee["line"] if ee else None)
     # a skipped single field: serde_derive treats a newtype *variant* with a skipped field as a unit variant, but for a newtype
     # *struct* it ignores `skip` altogether (ser.rs::serialize_newtype_struct never looks at it): `struct N(#[serde(skip)] i32)`
@@ -1602,7 +1641,7 @@ def struct_dispatch_rule(syn, prop, rule="C01.R6"):
         r.fail(prop, "tuple-all-skipped-not-array types::tuple::tuple",
                "tuple() hands a tuple whose fields are all skipped to %s: `struct T(#[serde(skip)] A, #[serde(skip)] B)` is declared `null` where serde writes `[]`" % S.squash(unit_calls[0]["func"]),
                tf0["file"], unit_calls[0]["line"])
-    _enum_override_order(syn, prop, r)
+    _enum_override_order(syn, prop, r, crate)
     # tuple and newtype shapes
     tf = syn.fn("types::tuple::tuple", "types/tuple.rs")
     ok = False
@@ -1613,6 +1652,16 @@ def struct_dispatch_rule(syn, prop, rule="C01.R6"):
             toks = [t for a in fc[0][1] for t in S.flat(a) if isinstance(t, str)]
             lits = [S.unquote(t) for t in toks if t.startswith('"')]
             ok = "join" in toks and bool(lits) and lits[-1] == ", " and "formatted_fields" in toks
+    if not ok and crate is not None:
+        # helpers / sub-templates: look at the templates recovered from the MIR of tuple(), parts spliced in
+        from vlib import quotelib as Q2
+        for ib, tpls, keep in Q2.function_templates(crate, "types::tuple::tuple"):
+            for t in tpls:
+                for lit, args in S.format_calls(Q2.expanded(ib, t, tpls)):
+                    if S.unquote(lit) == "[{}]":
+                        toks = [x for a in args for x in S.flat(a) if isinstance(x, str)]
+                        lits = [S.unquote(x) for x in toks if x.startswith('"')]
+                        ok = ok or ("join" in toks and bool(lits) and lits[-1] == ", ")
     r.inst(shape="tuple struct", template='"[{}]" over elements joined by ", "', ok=ok)
     if not ok:
         r.fail(prop, "tuple-shape", "tuple structs are not declared as `[a, b, ..]`", tf["file"] if tf else None, tf["line"] if tf else None)
